@@ -11,7 +11,7 @@ import os
 from harness.strkern import *   # noqa: F401,F403  (harness functions are looked up in this module)
 from harness import strkern
 from vf import rlit
-from vf.stubs import mod, patched
+from vf.stubs import untraced, mod, patched
 
 META = {
     'bounds': 'strings: |s| <= 2 (quick) / 3 (thorough) over all non-surrogate Unicode, plus |s| <= 2/3 over a 14-character '
@@ -54,6 +54,10 @@ def fold_reach(kl: int, kr: int, op: int) -> bool:
     pre: 0 <= kl < 14 and 0 <= kr < 14 and 0 <= op < 13
     post: _
     """
+    return untraced(_fold_reach_impl, kl, kr, op)
+
+
+def _fold_reach_impl(kl, kr, op):
     # safe_eval is reached only with the text of literal arithmetic, whatever the operand kinds are
     from python_minifier.ast_annotation import add_parent
     from python_minifier.rename import add_namespace
@@ -98,6 +102,10 @@ def fold_reach_twin(kl: int, kr: int, op: int) -> bool:
     pre: 0 <= kl < 14 and 0 <= kr < 14 and 0 <= op < 13
     post: _
     """
+    return untraced(_fold_reach_twin_impl, kl, kr, op)
+
+
+def _fold_reach_twin_impl(kl, kr, op):
     # reachability: safe_eval is reached for some operand kinds (must be refuted)
     from python_minifier.ast_annotation import add_parent
     from python_minifier.rename import add_namespace
